@@ -4425,3 +4425,177 @@ func componentKey(v ssa.Value) string {
 	}
 	return addrKey(v)
 }
+
+// ---------------------------------------------------------------------------------------------
+// R9.14 / R20.58 — the block parser refuses what its readers would index outside the tables
+
+func init() {
+	reg := func(id, prop string) {
+		register(ruleDef{ID: id, Prop: prop, Tier: "quick", Floor: 4,
+			Title: "the block parser refuses what the readers would index outside the tables: labels.Block.setExportedVars leaves with an error (a) when a sub-block index is not below the number of labels, (b) when a sub-block claims more labels than it has voxels, (c) when the packed values are shorter than the per-sub-block label counts require (the need is computed with bitsFor), and (d) when a dimension has no sub-block — every reader of a block (CalcNumLabels, MakeLabelVolume, the RLE writers) indexes by these tables with no further test, most of them in goroutines no recover handler covers",
+			Fn:    ruleBlockParserValidatesTables})
+	}
+	reg("R9.14", "C09")
+	reg("R20.58", "C20")
+}
+
+func ruleBlockParserValidatesTables(r *Run) {
+	w := r.W
+	f := w.method("datatype/common/labels", "Block", "setExportedVars")
+	if f == nil {
+		r.undecided("labels.Block.setExportedVars", "anchor not found")
+		return
+	}
+	// values aliased onto the two tables
+	elemOf := func(v ssa.Value, conv string) bool {
+		// v (or something it depends on) is a load of an element of the result of dvid.AliasByteTo<conv>
+		for d := range dataDeps(v) {
+			u, ok := d.(*ssa.UnOp)
+			if !ok {
+				continue
+			}
+			ia, ok := u.X.(*ssa.IndexAddr)
+			if !ok {
+				continue
+			}
+			for _, rv := range roots(ia.X, f) {
+				x := rv.V
+				if ex, ok := x.(*ssa.Extract); ok {
+					x = ex.Tuple
+				}
+				if c, ok := x.(*ssa.Call); ok {
+					if callee := c.Call.StaticCallee(); callee != nil && callee.Name() == "AliasByteTo"+conv {
+						return true
+					}
+				}
+				if isFieldLoad(x, "Block", map[string]string{"Uint32": "SBIndices", "Uint16": "NumSBLabels"}[conv]) {
+					return true
+				}
+			}
+		}
+		return false
+	}
+	var haveIdx, haveCount, haveValues, haveDims bool
+	for _, b := range f.Blocks {
+		ifi, ok := b.Instrs[len(b.Instrs)-1].(*ssa.If)
+		if !ok {
+			continue
+		}
+		// one side leaves with an error
+		leaves := false
+		for _, s := range b.Succs {
+			for _, x := range s.Instrs {
+				if ret, isRet := x.(*ssa.Return); isRet && isErrorExit(ret) {
+					leaves = true
+				}
+			}
+		}
+		if !leaves {
+			continue
+		}
+		bo, ok := ifi.Cond.(*ssa.BinOp)
+		if !ok {
+			continue
+		}
+		switch bo.Op {
+		case token.GEQ, token.GTR, token.LSS, token.LEQ:
+			if elemOf(bo.X, "Uint32") || elemOf(bo.Y, "Uint32") {
+				haveIdx = true
+			}
+			if elemOf(bo.X, "Uint16") || elemOf(bo.Y, "Uint16") {
+				if _, isC := constInt(bo.Y); isC {
+					haveCount = true
+				}
+				if _, isC := constInt(bo.X); isC {
+					haveCount = true
+				}
+			}
+			for d := range dataDeps(ifi.Cond) {
+				if c, ok := d.(*ssa.Call); ok {
+					if callee := c.Call.StaticCallee(); callee != nil && callee.Name() == "bitsFor" {
+						haveValues = true
+					}
+				}
+			}
+		case token.EQL:
+			if z, isC := constInt(bo.Y); isC && z == 0 {
+				for d := range dataDeps(bo.X) {
+					if c, ok := d.(*ssa.Call); ok && methodNameOf(c) == "Uint32" {
+						if sl, ok := c.Common().Args[len(c.Common().Args)-1].(*ssa.Slice); ok {
+							if hi, ok := constInt(sl.High); ok && hi <= 12 {
+								haveDims = true
+							}
+						}
+					}
+				}
+			}
+		}
+	}
+	r.check(haveIdx, "setExportedVars:sub-block-index-below-number-of-labels", "refused", "the parser accepts a block whose sub-block indices point outside its label table: POST blocks with such a block kills the process in the indexing goroutine (index out of range in CalcNumLabels), or — with noindexing — is stored and kills it at the next 2-D read", w.fpos(f))
+	r.check(haveCount, "setExportedVars:sub-block-label-count-bounded", "refused", "the parser accepts a sub-block that claims more labels than it has voxels: MakeLabelVolume indexes its 512-entry table past the end", w.fpos(f))
+	r.check(haveValues, "setExportedVars:packed-values-long-enough", "refused", "the parser accepts a block whose packed values are shorter than its sub-blocks need: the readers run past the end of the value bytes", w.fpos(f))
+	r.check(haveDims, "setExportedVars:no-empty-dimension", "refused", "the parser accepts a block with a dimension of 0 sub-blocks and a label table: the table aliasing indexes an empty slice", w.fpos(f))
+}
+
+// ---------------------------------------------------------------------------------------------
+// R20.59 / R17.14 — a streamed block has the instance's block size before it is stored
+
+func init() {
+	reg := func(id, prop string) {
+		register(ruleDef{ID: id, Prop: prop, Tier: "quick", Floor: 2,
+			Title: "a streamed block has the instance's block size before it is stored: in every labelmap function that takes blocks from a request stream (readStreamedBlock), each path from the read to the serialisation of the block for the store passes a comparison of the block's Size with the instance's block size — the readers address stored blocks by the instance's size, and a 32³ block stored in a 64³ instance makes the next 2-D read slice out of range in a goroutine no recover covers",
+			Fn:    ruleStreamedBlockSizeChecked})
+	}
+	reg("R20.59", "C20")
+	reg("R17.14", "C17")
+}
+
+func ruleStreamedBlockSizeChecked(r *Run) {
+	w := r.W
+	n := 0
+	for _, f := range w.RepoFuncs {
+		if relPkg(pkgPathOf(f)) != "datatype/labelmap" || len(f.Blocks) == 0 || isTestFunc(w, f) {
+			continue
+		}
+		var read ssa.Instruction
+		for _, c := range calls(f) {
+			if callee := staticCallee(c); callee != nil && callee.Name() == "readStreamedBlock" {
+				read = c
+			}
+		}
+		if read == nil {
+			continue
+		}
+		isSizeCheck := func(x ssa.Instruction) bool {
+			c, ok := x.(ssa.CallInstruction)
+			if !ok || methodNameOf(c) != "Equals" {
+				return false
+			}
+			for _, a := range c.Common().Args {
+				for d := range dataDeps(a) {
+					if u, ok := d.(*ssa.UnOp); ok {
+						if fa, ok := u.X.(*ssa.FieldAddr); ok {
+							if nm, _, _ := fieldName(fa); nm == "Size" && typeIs(fa.X.Type(), "datatype/common/labels", "Block") {
+								return true
+							}
+						}
+					}
+				}
+			}
+			return false
+		}
+		k := 0
+		for _, c := range calls(f) {
+			callee := staticCallee(c)
+			if callee == nil || callee.Name() != "SerializePrecompressedData" {
+				continue
+			}
+			n++
+			k++
+			p := findPath(f, read, isSizeCheck, func(x ssa.Instruction) bool { return x == ssa.Instruction(c) }, nil)
+			r.check(p == nil, fmt.Sprintf("%s:stored-block#%d:size-compared-with-instance", fname(f), k), "the block's size is compared with the instance's before it is serialised for the store",
+				"a block read from the request stream is stored without its size having been compared with the instance's block size: a well-formed block of another size is acknowledged, and the next read that assumes the instance's size slices it out of range (in the 2-D readers' goroutines: the process ends)", w.pos(c.Pos()), w.renderPath(p)...)
+		}
+	}
+	r.check(n >= 2, "labelmap:streamed-block-stores", fmt.Sprintf("%d", n), "fewer than expected: rule needs review", "-")
+}
